@@ -28,6 +28,7 @@ fn main() {
         let res = runner.run(&case);
         serde_json::to_writer(&mut out, &res).unwrap();
         out.write_all(b"\n").unwrap();
+        out.flush().unwrap();
     }
     out.flush().unwrap();
 }
